@@ -101,18 +101,22 @@ class Part:
         n, k, alg = self.n, self.k, self.alg
         mx, mn = zmax(zs_full), zmin(zs_full)
         if k >= 2:
-            conj_max = []; conj_min = []; conj_mf = []
-            # ITE-free forms:  a*max(r) <= b*max(P)  <=>  for every bin i of r there is a bin j of P with a*r_i <= b*P_j   (same for min)
-            parts = ctx_cache(('parts', n, k), lambda: [block_sums(a, xs, k) for a in rgs(n, k)])
-            for ss in parts:
-                if alg in ('greedy', 'kk'): conj_max += [z3.Or([3 * k * r <= (4 * k - 1) * s for s in ss]) for r in zs_full]
-                if alg == 'greedy': conj_min += [z3.Or([(4 * k - 2) * r >= (3 * k - 1) * s for s in ss]) for r in zs_full]
-                if alg == 'multifit':
-                    it = self.kw.get('iterations', 10)
-                    conj_mf += [z3.Or([100 * 2 ** it * r <= (122 * 2 ** it + 100) * s for s in ss]) for r in zs_full]
-            if conj_max: c.check('ratio-largest', z3.And(conj_max), '%s: largest sum above (4/3-1/(3k)) x optimum' % alg)
-            if conj_min: c.check('ratio-smallest', z3.And(conj_min), 'greedy: smallest sum below (3k-1)/(4k-2) x optimum')
-            if conj_mf: c.check('ratio-multifit', z3.And(conj_mf), 'multifit: largest sum above (1.22+2^-iterations) x optimum')
+            # ITE-free forms:  a*max(r) <= b*max(P)  <=>  some bin s of P has a*max(r) <= b*s   (and dually for min);
+            # the formula over all partitions P is built once over a placeholder D and instantiated by substitution
+            it = self.kw.get('iterations', 10)
+            def formula(kind):
+                D = z3.Int('D!ratio!%s!%d!%d' % (kind, n, k))
+                parts = [block_sums(a, xs, k) for a in rgs(n, k)]
+                if kind == 'max': f = z3.And([z3.Or([3 * k * D <= (4 * k - 1) * s for s in ss]) for ss in parts])
+                elif kind == 'min': f = z3.And([z3.Or([(4 * k - 2) * D >= (3 * k - 1) * s for s in ss]) for ss in parts])
+                else: f = z3.And([z3.Or([100 * 2 ** it * D <= (122 * 2 ** it + 100) * s for s in ss]) for ss in parts])
+                return D, f
+            def inst(kind, term):
+                D, f = ctx_cache(('ratio', kind, n, k, it), lambda: formula(kind))
+                return z3.substitute(f, (D, term))
+            if alg in ('greedy', 'kk'): c.check('ratio-largest', inst('max', mx), '%s: largest sum above (4/3-1/(3k)) x optimum' % alg)
+            if alg == 'greedy': c.check('ratio-smallest', inst('min', mn), 'greedy: smallest sum below (3k-1)/(4k-2) x optimum')
+            if alg == 'multifit': c.check('ratio-multifit', inst('mf', mx), 'multifit: largest sum above (1.22+2^-iterations) x optimum')
         if alg in ('greedy', 'kk', 'roundrobin'):
             c.check('gap', mx - mn <= zmax(xs), '%s: largest minus smallest sum exceeds the largest item' % alg)
         if alg == 'roundrobin':
